@@ -44,8 +44,8 @@ func (e gexpr) monotone() bool {
 	return true
 }
 
-// periodic: (v + a) % m
-func (e gexpr) periodic() (a, m int64, ok bool) {
+// periodic: (mul·v + add) % m with mul > 0
+func (e gexpr) periodic() (mul, add, m int64, ok bool) {
 	if len(e.ops) == 0 {
 		return
 	}
@@ -53,16 +53,30 @@ func (e gexpr) periodic() (a, m int64, ok bool) {
 	if last.kind != '%' || last.c <= 0 || last.c > 4096 {
 		return
 	}
+	mul = 1
 	for _, o := range e.ops[:len(e.ops)-1] {
-		if o.kind != '+' {
-			return
+		switch o.kind {
+		case '+':
+			s, okk := addOv(add, o.c)
+			if !okk {
+				return 0, 0, 0, false
+			}
+			add = s
+		case '*':
+			if o.c <= 0 {
+				return 0, 0, 0, false
+			}
+			p1, ok1 := mulOv(mul, o.c)
+			p2, ok2 := mulOv(add, o.c)
+			if !ok1 || !ok2 {
+				return 0, 0, 0, false
+			}
+			mul, add = p1, p2
+		default:
+			return 0, 0, 0, false
 		}
-		if (o.c > 0 && a > math.MaxInt64-o.c) || (o.c < 0 && a < math.MinInt64-o.c) {
-			return
-		}
-		a += o.c
 	}
-	return a, last.c, true
+	return mul, add, last.c, true
 }
 
 // eval applies the chain concretely; ok=false on overflow of the given width.
@@ -341,11 +355,53 @@ func (g *GateResult) refine(s ZSet, a *atom, want bool) ZSet {
 		}
 	}
 	if a.e.monotone() {
-		if _, ok := a.e.eval(dlo, g.Bits); !ok {
-			return s
-		}
-		if _, ok := a.e.eval(dhi, g.Bits); !ok {
-			return s
+		// the chain may overflow at the ends of the hull: refine only inside the largest
+		// interval around 0 (or the hull's small end) where it does not, keep the rest on both edges
+		_, okLo := a.e.eval(dlo, g.Bits)
+		_, okHi := a.e.eval(dhi, g.Bits)
+		if !okLo || !okHi {
+			anchor := int64(0)
+			if dlo > 0 {
+				anchor = dlo
+			} else if dhi < 0 {
+				anchor = dhi
+			}
+			if _, ok := a.e.eval(anchor, g.Bits); !ok {
+				return s
+			}
+			safeLo, safeHi := dlo, dhi
+			if !okHi {
+				// greatest v >= anchor without overflow
+				t, found := leastWith(anchor, dhi, func(v int64) bool { _, ok := a.e.eval(v, g.Bits); return !ok })
+				if found {
+					safeHi = t - 1
+				}
+			}
+			if !okLo {
+				// least v <= anchor without overflow: search on the mirrored predicate
+				lo, hi := dlo, anchor
+				for lo < hi {
+					mid := lo + int64((uint64(hi)-uint64(lo))/2)
+					if _, ok := a.e.eval(mid, g.Bits); ok {
+						hi = mid
+					} else {
+						lo = mid + 1
+					}
+				}
+				safeLo = lo
+			}
+			inside := s.clip(safeLo, safeHi)
+			var outside ZSet
+			if safeLo > dlo {
+				outside = outside.Union(s.clip(dlo, safeLo-1))
+			}
+			if safeHi < dhi {
+				outside = outside.Union(s.clip(safeHi+1, dhi))
+			}
+			if inside.Empty() {
+				return s
+			}
+			return g.refine(inside, a, want).Union(outside)
 		}
 		f := func(v int64) int64 { x, _ := a.e.eval(v, g.Bits); return x }
 		// tGE = least v with f(v) >= c ; tGT = least v with f(v) > c
@@ -392,32 +448,77 @@ func (g *GateResult) refine(s ZSet, a *atom, want bool) ZSet {
 		}
 		return s
 	}
-	if add, m, ok := a.e.periodic(); ok {
-		// u = v + add must not overflow on the hull
-		if _, ok := (gexpr{[]gop{{'+', add}}}).eval(dlo, g.Bits); !ok {
-			return s
-		}
-		if _, ok := (gexpr{[]gop{{'+', add}}}).eval(dhi, g.Bits); !ok {
-			return s
-		}
-		var out ZSet
-		// u >= 0  <=>  v >= -add
-		if add != math.MinInt64 {
-			nonneg := s.clip(maxI(dlo, -add), dhi)
-			neg := ZSet{}
-			if -add > math.MinInt64 {
-				neg = s.clip(dlo, minI(dhi, -add-1))
+	if mul, add, m, ok := a.e.periodic(); ok {
+		lin := gexpr{[]gop{{'*', mul}, {'+', add}}}
+		// restrict to the part of the hull where mul·v+add does not overflow
+		_, okLo := lin.eval(dlo, g.Bits)
+		_, okHi := lin.eval(dhi, g.Bits)
+		inside, outside := s, ZSet{}
+		if !okLo || !okHi {
+			anchor := int64(0)
+			if dlo > 0 {
+				anchor = dlo
+			} else if dhi < 0 {
+				anchor = dhi
 			}
-			for rho := int64(0); rho < m; rho++ {
-				if cmpHolds(rho, op, a.c) {
-					out = out.Union(nonneg.residue(m, mathMod(rho-add, m)))
-				}
-				if cmpHolds(-rho, op, a.c) {
-					out = out.Union(neg.residue(m, mathMod(-rho-add, m)))
+			if _, ok := lin.eval(anchor, g.Bits); !ok {
+				return s
+			}
+			safeLo, safeHi := dlo, dhi
+			if !okHi {
+				if t, found := leastWith(anchor, dhi, func(v int64) bool { _, ok := lin.eval(v, g.Bits); return !ok }); found {
+					safeHi = t - 1
 				}
 			}
-			return out
+			if !okLo {
+				lo, hi := dlo, anchor
+				for lo < hi {
+					mid := lo + int64((uint64(hi)-uint64(lo))/2)
+					if _, ok := lin.eval(mid, g.Bits); ok {
+						hi = mid
+					} else {
+						lo = mid + 1
+					}
+				}
+				safeLo = lo
+			}
+			inside = s.clip(safeLo, safeHi)
+			if safeLo > dlo {
+				outside = outside.Union(s.clip(dlo, safeLo-1))
+			}
+			if safeHi < dhi {
+				outside = outside.Union(s.clip(safeHi+1, dhi))
+			}
+			dlo, dhi = safeLo, safeHi
 		}
+		if inside.Empty() {
+			return s
+		}
+		// v0 = least v with mul·v+add >= 0
+		v0, has := leastWith(dlo, dhi, func(v int64) bool { u, _ := lin.eval(v, g.Bits); return u >= 0 })
+		nonneg, neg := ZSet{}, inside
+		if has {
+			nonneg = inside.clip(v0, dhi)
+			if v0 > dlo {
+				neg = inside.clip(dlo, v0-1)
+			} else {
+				neg = ZSet{}
+			}
+		}
+		P := m / gcd(mul, m)
+		out := outside
+		for r := int64(0); r < P; r++ {
+			u := mathMod(mathMod(mul, m)*r+mathMod(add, m), m) // (mul·r+add) mod m
+			if cmpHolds(u, op, a.c) {
+				out = out.Union(nonneg.residue(P, r))
+			}
+			// for negative u the truncated remainder is -((-u) mod m) = -(mathMod(-u, m))
+			nu := mathMod(-u, m)
+			if cmpHolds(-nu, op, a.c) {
+				out = out.Union(neg.residue(P, r))
+			}
+		}
+		return out
 	}
 	return s
 }
